@@ -2,6 +2,8 @@
 package router_address
 
 import (
+	"strings"
+
 	"github.com/go-i2p/logger"
 	"github.com/samber/oops"
 
@@ -116,20 +118,28 @@ func parseTransportType(ra *RouterAddress, routerData []byte) ([]byte, error) {
 
 // parseTransportOptions parses the transport options mapping from data.
 // Returns remaining data after parsing and any error encountered.
-// Propagates errors only when the mapping cannot be parsed (nil result).
-// Warnings about trailing data are expected in RouterAddress context and logged only.
+// The warning about data following the mapping is expected in RouterAddress context
+// (the next structure follows) and is logged only; every other mapping error means the
+// options are truncated or malformed and the address is rejected.
 func parseTransportOptions(ra *RouterAddress, routerData []byte) ([]byte, error) {
 	transportOptions, remainder, errs := data.NewMapping(routerData)
+	var critical error
 	for _, err := range errs {
 		log.WithFields(logger.Fields{
 			"at":     "(RouterAddress) parseTransportOptions",
 			"reason": "error parsing options",
 			"error":  err,
 		}).Error("error parsing RouterAddress")
+		if critical == nil && !strings.Contains(err.Error(), "data exists beyond length of mapping") {
+			critical = err
+		}
 	}
 	ra.TransportOptions = transportOptions
 	if transportOptions == nil && len(errs) > 0 {
 		return remainder, oops.Errorf("error parsing RouterAddress options: %v", errs[0])
+	}
+	if critical != nil {
+		return remainder, oops.Errorf("error parsing RouterAddress options: %v", critical)
 	}
 	return remainder, nil
 }
